@@ -72,6 +72,11 @@ func vpLongStr(label string, n int) string {
 	for i := 4; i < n; i++ {
 		b[i] = 'm'
 	}
+	if vpChoose(label+"-filler", 2) == 1 { // two-byte UTF-8 sequences instead of ASCII
+		for i := 4; i+1 < n; i += 2 {
+			b[i], b[i+1] = 0xC3, 0xA4
+		}
+	}
 	return string(b)
 }
 
@@ -110,7 +115,10 @@ func vpC05Stream() ([]byte, bool) {
 
 // vpC05Run drives one connection and checks every obligation of the property.
 func vpC05Run(stream []byte, maxReads int, endErr error, cbOK bool, cbMsg string, cbErr error) {
-	conn := &vpConn{in: &vpFragReader{data: stream, maxReads: maxReads, maxZeros: 0, endErr: endErr}}
+	vpC05RunOn(&vpConn{in: &vpFragReader{data: stream, maxReads: maxReads, maxZeros: 0, endErr: endErr}}, stream, endErr, cbOK, cbMsg, cbErr)
+}
+
+func vpC05RunOn(conn *vpConn, stream []byte, endErr error, cbOK bool, cbMsg string, cbErr error) {
 	rec := &vpCBRec{}
 	s := &Server{cb: func(login, password, service, realm string) (bool, string, error) {
 		rec.calls++
@@ -197,6 +205,50 @@ func VP_C05_ReplyForEveryCallbackResult() {
 		cbErr = vpCBErr{vpLongStr("cb-errmsg", vpMsgLen("cb-errlen"))}
 	}
 	vpC05Run(stream, 1, io.EOF, cbOK, cbMsg, cbErr)
+	vpCover("end")
+}
+
+// vpFill: n bytes, the first and the last arbitrary, a field-specific constant in between.
+func vpFill(label string, n int, fill byte) string {
+	if n <= 2 {
+		return vpStr(label, n)
+	}
+	b := make([]byte, n)
+	e := vpStr(label, 2)
+	for i := range b {
+		b[i] = fill
+	}
+	b[0], b[n-1] = e[0], e[1]
+	return string(b)
+}
+
+// Unit C: requests with long fields (up to the 256-byte limit) delivered whole, field by
+// field (as the bundled client and the PAM module write them), in small pieces or cut at
+// an arbitrary place: the callback still gets exactly the four fields.
+func VP_C05_LongRequestFragmented() {
+	prof := [][4]int{{60, 60, 3, 0}, {200, 1, 0, 0}, {1, 200, 3, 5}, {125, 125, 0, 0}, {60, 200, 3, 5}, {256, 256, 256, 256}}[vpChoose("lengths", 6)]
+	login := vpFill("login", prof[0], 'l')
+	pw := vpFill("password", prof[1], 'p')
+	svc := vpFill("service", prof[2], 's')
+	realm := vpFill("realm", prof[3], 'r')
+	stream := refEncode(login, pw, svc, realm)
+	fr := &vpFragReader{data: stream, maxReads: 1, endErr: io.EOF}
+	switch vpChoose("delivery", 4) {
+	case 0: // whole
+	case 1: // header and body of every field in separate reads
+		off := 0
+		for _, f := range []string{login, pw, svc, realm} {
+			fr.cuts = append(fr.cuts, off+2, off+2+len(f))
+			off += 2 + len(f)
+		}
+	case 2: // pieces of 7 bytes
+		for c := 7; c < len(stream); c += 7 {
+			fr.cuts = append(fr.cuts, c)
+		}
+	case 3: // one arbitrary cut
+		fr.maxReads = 2
+	}
+	vpC05RunOn(&vpConn{in: fr}, stream, io.EOF, true, "", nil)
 	vpCover("end")
 }
 
